@@ -69,6 +69,7 @@ pub fn oracle(s: &ProgScene<X>, t: &Trace) -> Vec<Violation> {
     for e in t.log {
         match e.ev {
             crate::world::Ev::Enter { a: 0, cb, .. } => {
+                crate::check::oblige("handlers-sequential");
                 if let Some(o) = open {
                     out.push(Violation {
                         clause: "handlers-sequential",
@@ -86,6 +87,7 @@ pub fn oracle(s: &ProgScene<X>, t: &Trace) -> Vec<Violation> {
     let mut seen: Vec<u32> = vec![];
     for e in &an.enters {
         if let Cb::Msg(id) = e.cb {
+            crate::check::oblige("at-most-once");
             if seen.contains(&id) {
                 out.push(Violation {
                     clause: "at-most-once",
@@ -130,6 +132,7 @@ pub fn oracle(s: &ProgScene<X>, t: &Trace) -> Vec<Violation> {
             let Some(e1) = m1.end else { continue };
             if e1 < m2.begin {
                 if let Some(h2) = m2.enter {
+                    crate::check::oblige("fifo-order");
                     match m1.enter {
                         None => out.push(Violation {
                             clause: "fifo-order",
@@ -161,6 +164,7 @@ pub fn oracle(s: &ProgScene<X>, t: &Trace) -> Vec<Violation> {
     for o in &an.ops {
         match o.res {
             Some(Res::Reply(r)) => {
+                crate::check::oblige("state-is-fold");
                 let want = digest_at.iter().find(|(id, _)| *id == r.id).map(|(_, d)| *d);
                 let own = s.clients.get(o.c as usize).and_then(|cs| cs.ops.get(o.i as usize)).and_then(submitted_id);
                 if Some(r.digest) != want || r.nth != 1 || own != Some(r.id) {
@@ -321,6 +325,7 @@ pub fn property() -> Property {
     Property {
         id: "C01",
         cases,
+        clauses: &["handlers-sequential", "at-most-once", "fifo-order", "state-is-fold"],
         assumptions: &["the final state is obtained by the owner: after a virtual tick (everything submitted has been accepted) it calls consume(), i.e. stop + join"],
     }
 }
